@@ -261,8 +261,13 @@ def check_cli(case, ev):
                 ev.excluded_domain["empty-prefix-list-not-expressible-on-cli"] += 1
                 return None
             base += ["--preserve-prefixes", ",".join(cfg["prefixes"])]
-        if cfg.get("networks"):
-            base += ["--preserve-addresses", ",".join(cfg["networks"])]
+        nets = list(cfg.get("networks") or [])
+        if case.get("private_flag") and all(r in nets for r in G.RFC1918):
+            # the private blocks through their own switch, on both runs
+            base.append("--preserve-private-addresses")
+            nets = [n for n in nets if n not in G.RFC1918]
+        if nets:
+            base += ["--preserve-addresses", ",".join(nets)]
         env = dict(os.environ, PYTHONPATH=core.REPO, PYTHONDONTWRITEBYTECODE="1", PYTHONIOENCODING="utf-8", PYTHONUTF8="1")
         p1 = subprocess.run(base + ["-a", "-i", os.path.join(d, "in.cfg"), "-o", os.path.join(d, "fwd.cfg")], capture_output=True, text=True, env=env, cwd=d)
         p2 = subprocess.run(base + ["-u", "-i", os.path.join(d, "fwd.cfg"), "-o", os.path.join(d, "back.cfg")], capture_output=True, text=True, env=env, cwd=d)
@@ -326,6 +331,13 @@ def _file_case(draw, max_lines=4, modes=("default", "empty", "list", "nested")):
 def _cli_case(draw):
     c = draw(_file_case(max_lines=3, modes=("default", "list", "nested")))
     c["cfg"]["salt"] = draw(st.one_of(st.text(alphabet="abcXYZ019_ é", min_size=0, max_size=8), st.sampled_from(["", "s", " x"])))
+    if draw(st.integers(0, 2)) == 0:
+        extra = draw(G.cidr_list(max_size=2, lengths=st.integers(8, 32))) if draw(st.booleans()) else []
+        c["cfg"]["networks"] = list(G.RFC1918) + extra
+        c["private_flag"] = True
+        for _ in range(draw(st.integers(1, 3))):
+            n = draw(G.addr_near(G.RFC1918))
+            c["lines"].append([{"t": "sep", "s": draw(st.sampled_from([" ip address ", "host ", ""]))}, {"t": "v4", "s": G.v4_canon(n), "n": n, "kind": "canonical"}, {"t": "sep", "s": draw(st.sampled_from(["", " 255.255.255.0", " log"]))}])
     return c
 
 
